@@ -552,7 +552,12 @@ def record_generation(tmp, k, doc):
         return saved[0](self, name)
 
     def pop(self, name):
-        slot(self)["ops"].append(("pop",))
+        sl = slot(self)
+        sl["ops"].append(("pop",))
+        top = self.splicer_names[-1] if self.splicer_names else None
+        # the level that is left is the one that was entered ("XXX" is the place holder update_top replaces)
+        if name != "XXX" and top != name:
+            sl.setdefault("pop_mismatch", []).append((name, top))
         return saved[1](self, name)
 
     def upd(self, name):
@@ -577,7 +582,8 @@ def record_generation(tmp, k, doc):
     for sl in rec.values():
         w = sl["self"]
         out[sl["cls"]] = {"ops": sl["ops"], "created": sl["created"], "path": w.splicer_path,
-                          "dict": canon_dict(enc_dict(flatten(w.splicers)))}
+                          "dict": canon_dict(enc_dict(flatten(w.splicers))),
+                          "pop_mismatch": sl.get("pop_mismatch", []), "final_names": list(w.splicer_names)}
     return out
 
 
@@ -656,6 +662,10 @@ def tie(ctx, ok, tmp):
     for k in range(16 if thorough else 4):
         doc = gen_ns_lib(r, "seqns%d" % k) if k % 2 == 0 else \
             libgen.gen_lib(r, name="seqlib%d" % k, wrap={"wrap_python": True, "wrap_lua": r.random() < 0.5}).todict()
+        if k % 2 == 1:
+            doc["declarations"].insert(0, {"decl": "struct PtS%d" % k, "declarations": [{"decl": "int x"}, {"decl": "double y"}]})
+        elif not doc["options"].get("wrap_python"):
+            doc["options"]["wrap_python"] = True
         recd = record_generation(tmp, k, doc)
         if recd is None:
             continue
@@ -677,6 +687,17 @@ def tie(ctx, ok, tmp):
                 depth = max(depth, cur)
             seq_stats["max_depth"] = max(seq_stats["max_depth"], depth)
             add(seq_request(r_["ops"]), seq_expected(r_), canon_seq, "seq")
+            # implementation-only: the emitters' push/pop discipline
+            ctx.count(2)
+            if r_["pop_mismatch"]:
+                ctx.fail("stack:pop-leaves-another-level:%s" % cls,
+                         "%s._pop_splicer(%r) left the level %r: a level was entered and not left, every later block of "
+                         "the run is looked up under a shifted name" % ((cls,) + tuple(r_["pop_mismatch"][0])),
+                         {"library": doc, "wrapper": cls, "mismatches": r_["pop_mismatch"][:5]})
+            if r_["final_names"]:
+                ctx.fail("stack:not-empty-after-generation:%s" % cls,
+                         "%s ends the generation with the splicer levels %r still entered" % (cls, r_["final_names"]),
+                         {"library": doc, "wrapper": cls})
     ctx.note("emitter_sequences", seq_stats)
     for k in range(600 if thorough else 200):
         cmd, dirs, yaml_entries, code, path_arg = gen_main_case(r)
@@ -728,6 +749,7 @@ SHAPES = ("empty", "one-line", "multi", "blank-inside", "blank-at-end", "blank-o
 SHAPE_STATS = {}      # "<route>:<shape>" -> count, printed into the evidence notes
 EXT_STATS = {}        # "<yaml key>-key:<file extension>" -> count
 FEED_STATS = {}       # language -> generated files fed back as splicer files
+KEYSET_STATS = {}     # key subsets supplied on declarations
 NS_STATS = {}         # shapes of the namespace trees of generated libraries
 FORM_STATS = {}       # "<yaml form>:<shape>" -> count
 
@@ -1236,6 +1258,9 @@ def gen_ns_lib(r, name):
             out.append(libgen.gen_class(r, uniq("Cls")))
         if r.random() < 0.3:
             out.append({"decl": "class %s" % uniq("Hollow")})       # nothing generated for its C files
+        if r.random() < 0.4:
+            # a plain struct (NumPy descriptor in Python), in front of the classes and functions of its scope
+            out.insert(0, {"decl": "struct %s" % uniq("Pt"), "declarations": [{"decl": "int x"}, {"decl": "double y"}]})
         return out
 
     def ns(depth, maxdepth):
@@ -1484,6 +1509,43 @@ def oracle_e2e(ctx, libname, tmp, doc=None):
                                     ctx.fail("precedence:%s:declaration-splicer-mangled" % libname,
                                              "block %s in %s: %r != %r" % (name, rel, body, want), dict(rp, name=name, file=rel))
     ctx.note("e2e_%s_declaration_blocks" % libname, sum(len(v) for v in found.values()))
+    # --- a random subset of the keys per declaration: a body arrives only in the block(s) of its own key
+    if found:
+        place = {}      # token of the identification run -> {(file, block name)}
+        for rel, text in files7.items():
+            for name, body in parse_blocks(text):
+                for t in forced:
+                    if any(t in l for l in body):
+                        place.setdefault(t, set()).add((rel, name))
+        docc = copy.deepcopy(base_doc)
+        declsc = func_decls(docc)
+        allowed = {}
+        for k, dk in enumerate(decls[:ndecl]):
+            d = [x for x in declsc if x["decl"] == dk["decl"]][0]
+            keys = [key for key in ("c", "c_buf", "c_cfi", "f", "py") if r.random() < 0.5] or ["c"]
+            KEYSET_STATS["+".join(keys)] = KEYSET_STATS.get("+".join(keys), 0) + 1
+            sp = {}
+            for key in keys:
+                t = "tok_sub%d%s();" % (k, key)
+                sp[key] = [t] + ([r.choice([l for l in CLEAN_VOCAB if l.strip()])] if r.random() < 0.5 else [])
+                allowed[t] = place.get("tok_decl%d%s();" % (k, key), set())
+            d["splicer"] = sp
+        rc, out, filesc, _ = lib.run(docc)
+        if rc != 0:
+            ctx.fail("e2e:%s:declaration-subset:run-failed" % libname, "regeneration failed: " + out[-400:], rp)
+        else:
+            for rel, text in filesc.items():
+                for name, body in parse_blocks(text):
+                    for t, ok_places in allowed.items():
+                        if any(t in l for l in body):
+                            ctx.count(1)
+                            if (rel, name) not in ok_places:
+                                key = re.match(r"tok_sub\d+(\w+)\(\);", t).group(1)
+                                ctx.fail("e2e:%s:declaration:user-body-in-other-block:%s" % (libname, key),
+                                         "the `splicer: %s:` lines of a declaration arrive in block %s of %s, which that key does "
+                                         "not name" % (key, name, rel), dict(rp, block=name, file=rel, key=key))
+                            else:
+                                ctx.nontrivial("%s:declsubset:%s:%s" % (libname, rel, name))
     # --- declaration-level splicers of every body shape in every YAML form; blocks identified by the token run above
     if found:
         where = {}      # token -> [(rel, index in file)]
@@ -1674,6 +1736,7 @@ def run(ctx):
     EXT_STATS.clear()
     NS_STATS.clear()
     FEED_STATS.clear()
+    KEYSET_STATS.clear()
     ok = ctx.lean(MODULES, THEOREMS, extra_targets=("drv_splicer",))
     ctx.cov["trusted_base"] = [
         "Lean 4.33.0 kernel; axioms within {propext, Classical.choice, Quot.sound}",
@@ -1718,6 +1781,8 @@ def run(ctx):
             gd = g.todict()
             if gd["language"] != "c":
                 gd["declarations"].append({"decl": "class HollowG%d" % k})
+            if rg.random() < 0.5:
+                gd["declarations"].insert(0, {"decl": "struct PtG%d" % k, "declarations": [{"decl": "int x"}, {"decl": "double y"}]})
             oracle_e2e(ctx, "genlib%d" % k, tmp, gd)
         nns = 10 if thorough else 2
         for k in range(nns):
@@ -1726,6 +1791,7 @@ def run(ctx):
         ctx.note("generated_namespace_libraries", dict(sorted(NS_STATS.items())))
         ctx.note("yaml_splicer_key_vs_extension", dict(sorted(EXT_STATS.items())))
         ctx.note("generated_files_fed_back_by_language", dict(sorted(FEED_STATS.items())))
+        ctx.note("declaration_key_subsets", dict(sorted(KEYSET_STATS.items())))
         ctx.note("body_shapes_by_route", dict(sorted(SHAPE_STATS.items())))
         ctx.note("declaration_yaml_forms", dict(sorted(FORM_STATS.items())))
     finally:
@@ -1752,6 +1818,8 @@ def replay(path):
             gens["genlib%d" % k] = g.todict()
             if gens["genlib%d" % k]["language"] != "c":
                 gens["genlib%d" % k]["declarations"].append({"decl": "class HollowG%d" % k})
+            if rg.random() < 0.5:
+                gens["genlib%d" % k]["declarations"].insert(0, {"decl": "struct PtG%d" % k, "declarations": [{"decl": "int x"}, {"decl": "double y"}]})
         for k in range(10):
             gens["nslib%d" % k] = gen_ns_lib(rg, "nslib%d" % k)
         for name in libs:
